@@ -154,7 +154,33 @@ func c01R3(c *Ctx, r *Report) {
 	// QBE narrowing casts use the same helper
 	hic := c.LookupFn(pkgQBE, "(*Generator).handleIntegerCast")
 	if r.Anchor(rule, hic != nil, "qbe.(*Generator).handleIntegerCast") {
-		r.Check(nodeCalls(hic.Info(), hic.Decl.Body, qWrap.Obj) != nil, rule, hic.Name(), "narrowing cast uses emitSubWordWrap", c.pos(hic.Decl.Pos()), "casts to 8/16-bit integers no longer reduce the value")
+		// the branch for targets narrower than 32 bits: every exit of it has reduced the value
+		var sub *ast.IfStmt
+		ast.Inspect(hic.Decl.Body, func(x ast.Node) bool {
+			if ifs, ok := x.(*ast.IfStmt); ok && sub == nil {
+				for _, cj := range conjuncts(ifs.Cond) {
+					if be, ok := isBinOp(cj, token.LSS); ok {
+						if v := constOf(hic.Info(), be.Y); v != nil && intVal(v) == 32 {
+							sub = ifs
+						}
+					}
+				}
+			}
+			return true
+		})
+		if r.Anchor(rule, sub != nil, "handleIntegerCast: if … toBits < 32 {…}") {
+			hinfo := hic.Info()
+			hits := mustFlow(c.CFGOfBody(sub.Body), FlowSpec{
+				Gate:     func(n ast.Node) bool { return nodeCalls(hinfo, n, qWrap.Obj) != nil },
+				AtReturn: true,
+			})
+			where := c.pos(sub.Pos())
+			if len(hits) > 0 && hits[0].Pos.IsValid() {
+				where = c.pos(hits[0].Pos)
+			}
+			r.Check(len(hits) == 0, rule, hic.Name(), "every cast to an 8/16-bit integer reduces the value", where,
+				"a cast to i8/i16/u8/u16 can leave handleIntegerCast without emitSubWordWrap: e.g. a 'widening' i8 -> u16 keeps the sign-extended upper bits while the value stays in a register, so `(y as u16) == 65480` differs from the same test on a variable holding the cast")
+		}
 	}
 	// the helpers choose sign- vs zero-extension by the signedness of the type they are given
 	isS := c.LookupFn(pkgQBE, "(*Generator).isSigned")
@@ -439,3 +465,254 @@ func exprStrs(es []ast.Expr) []string {
 }
 
 var _ = token.NoPos
+
+func init() { props["C01"].Quick = append(props["C01"].Quick, c01R4) }
+
+// C01.R4: `lhs op= rhs` reads lhs before rhs is evaluated (left-to-right evaluation), in every lowering path.
+func c01R4(c *Ctx, r *Report) {
+	const rule = "C01.R4"
+	r.Describe(rule, "mir/gen: in every function that combines a current value with a lowered right-hand side (emitBinary(op, cur, rhs…)), the read that defines cur precedes lowerExpr(rhs) on every path (or the path is the plain-assignment branch)")
+	emitBin := c.LookupFn(pkgMIRGen, "(*functionBuilder).emitBinary")
+	lower := c.LookupFn(pkgMIRGen, "(*functionBuilder).lowerExpr")
+	load := c.LookupFn(pkgMIRGen, "(*functionBuilder).emitLoad")
+	emitInstr := c.LookupFn(pkgMIRGen, "(*functionBuilder).emitInstr")
+	if !r.Anchor(rule, emitBin != nil && lower != nil && load != nil && emitInstr != nil, "mir/gen emitBinary / lowerExpr / emitLoad / emitInstr") {
+		return
+	}
+	n := 0
+	for _, fn := range c.AllFns(pkgMIRGen) {
+		info := fn.Info()
+		curVars := map[types.Object]bool{}
+		for _, call := range callsIn(fn.Decl.Body, false) {
+			if isCallTo(info, call, emitBin.Obj) && len(call.Args) >= 3 {
+				if o := objOf(info, call.Args[1]); o != nil {
+					curVars[o] = true
+				}
+			}
+		}
+		if len(curVars) == 0 {
+			continue
+		}
+		isRhsLower := func(nd ast.Node) bool {
+			return nodeCallsPred(nd, func(cl *ast.CallExpr) bool {
+				if !isCallTo(info, cl, lower.Obj) || len(cl.Args) != 1 {
+					return false
+				}
+				s := exprStr(cl.Args[0])
+				return s == "rhs" || strings.HasSuffix(s, ".Rhs")
+			}) != nil
+		}
+		hasTarget := false
+		ast.Inspect(fn.Decl.Body, func(x ast.Node) bool {
+			if st, ok := x.(ast.Stmt); ok && isRhsLower(st) {
+				hasTarget = true
+			}
+			return true
+		})
+		if !hasTarget {
+			continue
+		}
+		// reads defining a cur variable: cur := b.emitLoad(…)   |   b.emitInstr(&mir.X{Result: cur, …}) for a reading instruction
+		isRead := func(nd ast.Node) bool {
+			if as, ok := nd.(*ast.AssignStmt); ok && len(as.Lhs) == 1 && len(as.Rhs) == 1 {
+				if cl, ok := as.Rhs[0].(*ast.CallExpr); ok && isCallTo(info, cl, load.Obj) && curVars[objOf(info, as.Lhs[0])] {
+					return true
+				}
+			}
+			hit := false
+			inspectShallow(nd, func(x ast.Node) bool {
+				cl, ok := x.(*ast.CallExpr)
+				if !ok || !isCallTo(info, cl, emitInstr.Obj) || len(cl.Args) != 1 {
+					return true
+				}
+				ast.Inspect(cl.Args[0], func(y ast.Node) bool {
+					lit, ok := y.(*ast.CompositeLit)
+					if !ok {
+						return true
+					}
+					nt := namedOf(info.TypeOf(lit))
+					if nt == nil || !(nt.Obj().Name() == "ArrayGet" || nt.Obj().Name() == "OptionalUnwrap" || nt.Obj().Name() == "MapGet" || nt.Obj().Name() == "Load") {
+						return true
+					}
+					for _, e := range lit.Elts {
+						if kv, ok := e.(*ast.KeyValueExpr); ok && exprStr(kv.Key) == "Result" && curVars[objOf(info, kv.Value)] {
+							hit = true
+						}
+					}
+					return true
+				})
+				return true
+			})
+			return hit
+		}
+		anyRead := false
+		ast.Inspect(fn.Decl.Body, func(x ast.Node) bool {
+			if st, ok := x.(ast.Stmt); ok && isRead(st) {
+				anyRead = true
+			}
+			return true
+		})
+		if !anyRead {
+			continue // the left operand is not a read of a place (e.g. binary expression lowering)
+		}
+		n++
+		hits := mustFlow(c.CFG(fn), FlowSpec{
+			Gate: isRead,
+			EdgeGate: func(b *cfg.Block, succ int) bool {
+				cond := condOf(b)
+				if cond == nil || succ != 1 {
+					return false
+				}
+				// not a compound assignment: false edge of `… && X.Kind != tokens.EQUALS_TOKEN`
+				for _, cj := range conjuncts(cond) {
+					if be, ok := isBinOp(cj, token.NEQ); ok && strings.HasSuffix(exprStr(be.X), ".Kind") && strings.HasSuffix(exprStr(be.Y), "EQUALS_TOKEN") {
+						return true
+					}
+				}
+				return false
+			},
+			Target: isRhsLower,
+		})
+		where := c.pos(fn.Decl.Pos())
+		if len(hits) > 0 && hits[0].Pos.IsValid() {
+			where = c.pos(hits[0].Pos)
+		}
+		r.Check(len(hits) == 0, rule, fn.Name(), "target read before the right-hand side is evaluated", where,
+			"a compound assignment path evaluates the right-hand side before it reads the target: when the right-hand side changes the target (closure, &' receiver), `x op= f()` differs from `x = x op f()` and from the other assignment forms")
+	}
+	r.Floor(rule, n, 3, "functions lowering a compound assignment")
+}
+
+func init() {
+	lateInits = append(lateInits, func() {
+		props["C02"].Quick = append(props["C02"].Quick, c02R4, c02R5)
+		props["C04"].Quick = append(props["C04"].Quick, c02R4)
+		props["C09"].Quick = append(props["C09"].Quick, c01R3)
+	})
+}
+
+// reviewed i32.const immediates written with the unsigned encoder: function -> operand -> reason
+var c02R4Reviewed = map[string]string{
+	"entryIdx":             "block-dispatch tag: written and compared with the same (injective) byte encoding, never used as a number",
+	"idx":                  "block-dispatch tag (see entryIdx)",
+	"blockIndex[t.Then]":   "block-dispatch tag (see entryIdx)",
+	"blockIndex[t.Else]":   "block-dispatch tag (see entryIdx)",
+	"blockIndex[target]":   "block-dispatch tag (see entryIdx)",
+}
+
+// C02.R4: the immediate of i32.const / i64.const is a signed LEB128.
+func c02R4(c *Ctx, r *Report) {
+	const rule = "C02.R4"
+	r.Describe(rule, "wasm: every i32.const / i64.const opcode is followed by encodeS32 / encodeS64 of its operand (unsigned LEB decodes 64..127 as negative); reviewed block-tag sites excepted")
+	s32 := c.LookupFn(pkgWasm, "encodeS32")
+	s64 := c.LookupFn(pkgWasm, "encodeS64")
+	u32 := c.LookupFn(pkgWasm, "encodeU32")
+	c32 := c.lookupObj(pkgWasm, "opcodeI32Const")
+	c64 := c.lookupObj(pkgWasm, "opcodeI64Const")
+	if !r.Anchor(rule, s32 != nil && s64 != nil && u32 != nil && c32 != nil && c64 != nil, "wasm encodeS32/encodeS64/encodeU32/opcodeI32Const/opcodeI64Const") {
+		return
+	}
+	n := 0
+	for _, fn := range c.AllFns(pkgWasm) {
+		info := fn.Info()
+		ast.Inspect(fn.Decl.Body, func(x ast.Node) bool {
+			var list []ast.Stmt
+			switch b := x.(type) {
+			case *ast.BlockStmt:
+				list = b.List
+			case *ast.CaseClause:
+				list = b.Body
+			default:
+				return true
+			}
+			for i, st := range list {
+				as, ok := st.(*ast.AssignStmt)
+				if !ok || len(as.Rhs) != 1 {
+					continue
+				}
+				cl, ok := as.Rhs[0].(*ast.CallExpr)
+				if !ok || exprStr(cl.Fun) != "append" || len(cl.Args) != 2 {
+					continue
+				}
+				op := objOf(info, cl.Args[1])
+				if op != c32 && op != c64 {
+					continue
+				}
+				n++
+				wantFn, wantName := s32.Obj, "encodeS32"
+				if op == c64 {
+					wantFn, wantName = s64.Obj, "encodeS64"
+				}
+				construct := fmt.Sprintf("%s immediate", op.Name())
+				if i+1 >= len(list) {
+					r.Fail(rule, fn.Name(), construct, c.pos(st.Pos()), "the constant opcode is not followed by its immediate in the same block")
+					continue
+				}
+				nx, ok := list[i+1].(*ast.AssignStmt)
+				var enc *ast.CallExpr
+				if ok && len(nx.Rhs) == 1 {
+					if a2, ok := nx.Rhs[0].(*ast.CallExpr); ok && exprStr(a2.Fun) == "append" && len(a2.Args) == 2 {
+						enc, _ = ast.Unparen(a2.Args[1]).(*ast.CallExpr)
+					}
+				}
+				if enc == nil {
+					r.Fail(rule, fn.Name(), construct, c.pos(st.Pos()), "the statement after the constant opcode does not append an encoded immediate")
+					continue
+				}
+				arg := ""
+				if len(enc.Args) == 1 {
+					arg = exprStr(enc.Args[0])
+				}
+				if isCallTo(info, enc, u32.Obj) {
+					if reason, ok := c02R4Reviewed[arg]; ok {
+						r.OK(rule, fn.Name(), construct+" "+arg+" (reviewed: "+reason+")", c.pos(st.Pos()), "reviewed exception")
+						continue
+					}
+				}
+				r.Check(isCallTo(info, enc, wantFn), rule, fn.Name(), construct+" "+arg+" encoded with "+wantName, c.pos(nx.Pos()),
+					"the immediate of "+op.Name()+" is a signed LEB128; written with "+exprStr(enc.Fun)+" a value with bit 6 of its last LEB byte set (64..127, 8192..16383, …) is decoded as negative: base+offset becomes base+offset-128")
+			}
+			return true
+		})
+	}
+	r.Floor(rule, n, 20, "i32.const / i64.const emission sites")
+}
+
+// C02.R5: string data for the assembler uses only escapes gas decodes to exactly one byte.
+func c02R5(c *Ctx, r *Report) {
+	const rule = "C02.R5"
+	r.Describe(rule, "QBE escapeString: every escape it can write is one of \\\\ \\\" \\n \\r \\t \\b \\f or a 3-digit octal; no \\x escapes (gas reads all following hex digits)")
+	fn := c.LookupFn(pkgQBE, "escapeString")
+	if !r.Anchor(rule, fn != nil, "qbe.escapeString") {
+		return
+	}
+	info := fn.Info()
+	n := 0
+	ast.Inspect(fn.Decl.Body, func(x ast.Node) bool {
+		lit, ok := x.(*ast.BasicLit)
+		if !ok || lit.Kind != token.STRING {
+			return true
+		}
+		v := constOf(info, lit)
+		if v == nil {
+			return true
+		}
+		s, _ := strOf(v)
+		if !strings.HasPrefix(s, "\\") {
+			return true
+		}
+		n++
+		ok2 := false
+		switch s {
+		case "\\\\", "\\\"", "\\n", "\\r", "\\t", "\\b", "\\f", "\\":
+			ok2 = true
+		}
+		if strings.HasPrefix(s, "\\%03o") {
+			ok2 = true
+		}
+		r.Check(ok2, rule, fn.Name(), "escape "+fmt.Sprintf("%q", s), c.pos(lit.Pos()),
+			"this escape is not decoded byte-for-byte by the assembler (a \\x escape swallows every following hex digit): the native string differs from the bytes the wasm data segment holds")
+		return true
+	})
+	r.Floor(rule, n, 4, "escape sequences written by escapeString")
+}
